@@ -59,7 +59,7 @@ const MutableNodeRefList    KeyTable::s_dummyList(XalanMemMgrs::getDummyMemMgr()
 
 KeyTable::KeyTable(
             XalanNode*                          startNode,
-            const PrefixResolver&               resolver,
+            const PrefixResolver&               /* resolver */,
             const KeyDeclarationVectorType&     keyDeclarations,
             StylesheetExecutionContext&         executionContext) :
     m_keys(executionContext.getMemoryManager())
@@ -113,6 +113,11 @@ KeyTable::KeyTable(
                 // See if our node matches the given key declaration according to 
                 // the match attribute on xsl:key.
                 assert(kd.getMatchPattern() != 0);
+
+                // The namespace context of the expressions is the one of
+                // the xsl:key element, not the one of the instruction that
+                // happens to call key() first.
+                const KeyDeclaration::PrefixResolverProxy   resolver(kd);
 
                 const XPath::eMatchScore    score =
                         kd.getMatchPattern()->getMatchScore(
